@@ -716,6 +716,9 @@ class Interp(object):
             return mv[name]
         if name in self.builtins:
             return self.builtins[name]
+        import builtins as _pyb
+        if hasattr(_pyb, name):
+            raise Unsupported("builtin %s is not modelled" % name)
         self.raise_py('NameError', name)
 
     def assign(self, tgt, v, env):
